@@ -23,6 +23,7 @@ type observer struct {
 	recList  [][3]uint64     // wrk(1/0), id, key
 	pairs    map[string]bool // stream pairs "r|s"
 	pairList [][2]int
+	fresh    map[string]bool // observations of the last snapshot whose query had never been emitted before
 }
 
 func newObserver(c *chain) *observer {
@@ -71,10 +72,14 @@ func (o *observer) snapshot(ctx sdk.Context) []string {
 	c := o.c
 	a := c.app
 	var out []string
+	o.fresh = map[string]bool{}
 	emit := func(q, v string) {
 		if old, ok := o.last[q]; !ok || old != v {
 			o.last[q] = v
 			out = append(out, "("+q+", "+v+")")
+			if !ok {
+				o.fresh["("+q+", "+v+")"] = true
+			}
 		}
 	}
 	holders := []int{mEnt, mStream}
